@@ -253,7 +253,11 @@ def task_freq2time():
         tm = [x for x in log if x[0] == 'tem']
         if len(it_) != 1 or len(tm) != 1 or it_[0][1] is not r.state['fd']:
             return False
-        a, kw = tm[0][1], tm[0][2]
+        # effective parameters of empymod.model.tem(fEM, off, freq, time, signal, ft, ftarg, conv=True) by name
+        names = ['fEM', 'off', 'freq', 'time', 'signal', 'ft', 'ftarg', 'conv']
+        kw = dict(zip(names, tm[0][1]))
+        kw.update(tm[0][2])
+        a = [kw.get('fEM')]
         good = isinstance(a[0], cx.NDArr) and str(a[0].store.origin) == 'filled-spectrum' and isinstance(a[0].view, tuple) and a[0].view[0] == 'index' \
             and a[0].view[1] == (slice(None, None, None), None)
         good = good and (kw.get('freq') is fo.fields['_freq_req'] or (isinstance(kw.get('freq'), cx.NDArr) and kw['freq'].store is fo.fields['_freq_req'].store))
